@@ -362,6 +362,27 @@ def r_bareword(ctx, rid="C09.bareword"):
                               % (which, vt.occ_name(occ) if occ else "none", len(texts), res, r.errors))
 
 
+def r_absent(ctx, rid="C09.absent", cfgs=("default",)):
+    ctx.rule(rid, "a map member with a literal key that is absent from the map (validate_object_value / the Map arm of CBOR visit_value): the "
+                  "member is skipped exactly when its occurrence allows zero occurrences — ?, *, and n*m with n = 0 or omitted alike — and is "
+                  "reported as a missing key otherwise (abstract evaluation%s)" % ("" if cfgs == ("default",) else ", under the default and the ast-span-less configuration"),
+             floor=18 * len(cfgs))
+    for which in ("json", "cbor"):
+        tables = {}
+        for cfgname in cfgs:
+            rows = vt.absent_key_table(ctx.facts, which, cfgname)
+            tables[cfgname] = rows
+            for r in rows:
+                key = "%s|%s|%s" % (which, cfgname, r["occ"])
+                if r["verdict"].startswith("unknown"):
+                    ctx.incomplete_msg(rid, "%s: %s" % (key, r["verdict"]))
+                    continue
+                ctx.site(rid, key, r["file"], r["line"], {"verdict": r["verdict"], "rfc": r["expected"]})
+                if r["verdict"] != r["expected"]:
+                    ctx.violation(rid, key, r["file"], r["line"], "%s validator (%s configuration): an absent literal-key member with occurrence %s is %s; "
+                                  "RFC 8610 section 3.2: %s" % (which, cfgname, r["occ"], r["verdict"], r["expected"]))
+
+
 def run(ctx):
     ctx.guarded("C09.eqne", r_eqne)
     ctx.guarded("C09.range", r_range)
@@ -369,6 +390,7 @@ def run(ctx):
     ctx.guarded("C09.repeatcount", r_repeatcount)
     ctx.guarded("C09.occursites", r_occursites)
     ctx.guarded("C09.bareword", r_bareword)
+    ctx.guarded("C09.absent", r_absent)
     ctx.guarded("C09.prelude", r_prelude)
     ctx.guarded("C09.ctrlrestore.json", lambda c: cv.ctrlrestore_rule(c, "C09j", "json"))
     ctx.guarded("C09.ctrlrestore.cbor", lambda c: cv.ctrlrestore_rule(c, "C09c", "cbor"))
